@@ -84,6 +84,26 @@ type Grid struct {
 	Nums  [][]int32
 }
 
+// maps of unnamed types nested in maps and lists (they travel untyped and are converted to the
+// declared type entry by entry)
+type Nested struct {
+	MM  map[string]map[string]int32
+	SM  []map[string]int32
+	MSM map[int32]map[string][]string
+	LL  [][]map[string]*Inner
+}
+
+// named slice types as fields, list elements and map values (they keep their own wire name)
+type Tags []string
+type Blob []byte
+type NamedLists struct {
+	T  Tags
+	LT []Tags
+	MT map[string]Tags
+	B  Blob
+	LB []Blob
+}
+
 type StrMap map[string]string
 type NamedMaps struct {
 	A StrMap
@@ -208,7 +228,7 @@ var zooTypes = []reflect.Type{
 	reflect.TypeOf([]int32{}), reflect.TypeOf([]string{}), reflect.TypeOf([]*Inner{}), reflect.TypeOf([]Leaf{}),
 	reflect.TypeOf([]interface{}{}), reflect.TypeOf([]float64{}), reflect.TypeOf([]int64{}), reflect.TypeOf([]time.Time{}),
 	reflect.TypeOf(map[string]string{}), reflect.TypeOf(map[string]int32{}), reflect.TypeOf(map[int32]string{}),
-	reflect.TypeOf(map[string]*Inner{}), reflect.TypeOf(AnyMaps{}), reflect.TypeOf(map[interface{}]interface{}{}), reflect.TypeOf(Edges{}), reflect.TypeOf(Grid{}),
+	reflect.TypeOf(map[string]*Inner{}), reflect.TypeOf(AnyMaps{}), reflect.TypeOf(map[interface{}]interface{}{}), reflect.TypeOf(Edges{}), reflect.TypeOf(Grid{}), reflect.TypeOf(Nested{}), reflect.TypeOf(NamedLists{}), reflect.TypeOf(Tags{}),
 }
 
 var timeType = reflect.TypeOf(time.Time{})
